@@ -186,10 +186,11 @@ func checkC19(c *ProgCase) *Outcome {
 	apiChecked := false
 	if run.HostableEnv(c.Env) && !hasFunEnv(c) && !usesHarness && len(c.Ops) == 0 {
 		apiChecked = true
-		judge := func(host interface{}, what string) *Outcome {
+		judge := func(host interface{}, what string, sameRendering bool) *Outcome {
 			var dv, evv *val.Val
 			var derr, eerr error
-			dp := run.Guard(func() { dv, _, derr = yae.Debug(r.Src, host) })
+			var dreport string
+			dp := run.Guard(func() { dv, dreport, derr = yae.Debug(r.Src, host) })
 			ep := run.Guard(func() { evv, eerr = yae.Eval(r.Src, host) })
 			dfail, efail := dp != nil || derr != nil, ep != nil || eerr != nil
 			if dfail != efail || dfail != (wf != nil) {
@@ -202,9 +203,23 @@ func checkC19(c *ProgCase) *Outcome {
 					return bad("Debug yields %s, Eval %s, the rules %s (%s)\n src: %s", renderVal(dv), renderVal(evv), wv.Render(), what, r.Src)
 				}
 			}
+			// the report Debug hands out: the source as its first line and every recorded value,
+			// whether the evaluation ended in a value or in a failure
+			if dp == nil {
+				dl := strings.Split(dreport, "\n")
+				if dl[0] != r.Src {
+					return bad("first line of the report returned by Debug is %q, the source is %q (%s; Debug %s)\n env: %s", dl[0], r.Src, what, outcomeText(dv, derr, dp), envSummary(c))
+				}
+				if sameRendering && dreport != report {
+					return bad("the report returned by Debug differs from the rendering of the record of the same evaluation (%s; Debug %s)\n Debug:\n%s\n record:\n%s", what, outcomeText(dv, derr, dp), dreport, report)
+				}
+				if len(entries) > 0 && len(dl) < 2 {
+					return bad("the report returned by Debug shows none of the %d recorded values (%s; Debug %s)\n report:\n%s", len(entries), what, outcomeText(dv, derr, dp), dreport)
+				}
+			}
 			return nil
 		}
-		if o := judge(run.EnvStruct(c.Vals), "environment as a Go struct"); o != nil {
+		if o := judge(run.EnvStruct(c.Vals), "environment as a Go struct", true); o != nil {
 			return o
 		}
 		// the same source once more with environments of ONE Go type (map[string]interface{}):
@@ -221,7 +236,7 @@ func checkC19(c *ProgCase) *Outcome {
 			}
 			_ = run.Guard(func() { _, _, _ = yae.Debug(r.Src, sibling) })
 			_ = run.Guard(func() { _, _ = yae.Eval(r.Src, sibling) })
-			if o := judge(mp, "environment as map[string]interface{}, after a call with the same source over a differently typed map"); o != nil {
+			if o := judge(mp, "environment as map[string]interface{}, after a call with the same source over a differently typed map", false); o != nil {
 				return o
 			}
 		}
@@ -354,7 +369,7 @@ var c19apiOpt = gen.ProgOpt{Fuel: 4, Partial: true, Sugar: true, Maybe: true, Ti
 var c19api = Register(&Prop[ProgCase]{ID: "C19", Name: "debug-api", Gen: withBlanks(genProgCase(c19apiOpt, nil)), Check: checkC19})
 
 func TestC19(t *testing.T) {
-	R.Rule = "accepted single-line programs (ASCII and non-ASCII identifiers and strings, a user-registered postfix operator whose token follows its operand, blanks / tabs / carriage returns between tokens, sugar, unevaluated lazy branches, failing operands) over conforming environments; oracle: (a) yae.Debug returns the same value / failure as Eval and the reference, with the environment as a Go struct and again as map[string]interface{} after a call with the same source over a differently typed map of the same Go type; (b) closure.DebugCompile with a debug.Record read through the hook records exactly the reference evaluator's evaluated variable / call / member / subscript terms, in completion order, each with its value and the column of its own token + 1 (identifier start, operator token, '(' of a call, '.', '['); (c) Render does not fail, its first line is the source and every recorded value appears at its column on a later line (a value whose text has line breaks on consecutive lines, every piece at that column); (d) a second and third evaluation of the same compiled expression with the same record give the same entries and report; non-trivial = >= 3 recorded terms and an unevaluated branch, a non-ASCII rune before a recorded term, or two values competing for a line"
+	R.Rule = "accepted single-line programs (ASCII and non-ASCII identifiers and strings, a user-registered postfix operator whose token follows its operand, blanks / tabs / carriage returns between tokens, sugar, unevaluated lazy branches, failing operands) over conforming environments; oracle: (a) yae.Debug returns the same value / failure as Eval and the reference, and its report - after a value and after a failure alike - has the source as first line, shows recorded values and equals the rendering of the record of route (b), with the environment as a Go struct and again as map[string]interface{} after a call with the same source over a differently typed map of the same Go type; (b) closure.DebugCompile with a debug.Record read through the hook records exactly the reference evaluator's evaluated variable / call / member / subscript terms, in completion order, each with its value and the column of its own token + 1 (identifier start, operator token, '(' of a call, '.', '['); (c) Render does not fail, its first line is the source and every recorded value appears at its column on a later line (a value whose text has line breaks on consecutive lines, every piece at that column); (d) a second and third evaluation of the same compiled expression with the same record give the same entries and report; non-trivial = >= 3 recorded terms and an unevaluated branch, a non-ASCII rune before a recorded term, or two values competing for a line"
 	R.Assume = []string{"ref.Eval's completion order; model.Print's token positions; lazy functions that force a thunk twice (lz_pick) are outside the domain (one term, two evaluations)"}
 	reportKnown(t, "C19")
 	runRegress(t, "C19")
